@@ -2,6 +2,7 @@ package props
 
 import (
 	"fmt"
+	"math/rand"
 	"strings"
 
 	"github.com/tdewolff/parse/v2"
@@ -39,7 +40,10 @@ func jsParseString(src string, o js.Options) (string, *js.AST, error) {
 
 var c03RefStyle = gen.JSStyle{Parens: 1, Semi: 0, WS: 1}
 
-func c03Styles(r interface{ Intn(int) int; Int63() int64 }) []gen.JSStyle {
+func c03Styles(r interface {
+	Intn(int) int
+	Int63() int64
+}) []gen.JSStyle {
 	return []gen.JSStyle{
 		{Parens: 0, Semi: 0, WS: 0, Seed: r.Int63()},
 		{Parens: 0, Semi: 1, WS: 2, Seed: r.Int63()},
@@ -87,7 +91,7 @@ func whileToFor(n *gen.JSNode) *gen.JSNode {
 
 func c03Spell(t *fw.T) {
 	r := t.Rng
-	o := gen.JSOpts{}
+	o := gen.JSOpts{CtxNames: r.Intn(2) == 0}
 	inlineOK := r.Intn(2) == 0
 	if inlineOK {
 		o.NoModuleItems = true
@@ -100,14 +104,16 @@ func c03Spell(t *fw.T) {
 		opts = append(opts, js.Options{Inline: true}, js.Options{Inline: true, WhileToFor: true})
 	}
 	refStr := map[js.Options]string{}
+	refAST := map[js.Options]*js.AST{}
 	for _, op := range opts {
-		s, _, err := jsParseString(ref, op)
+		s, ast, err := jsParseString(ref, op)
 		if err != nil {
 			t.Desc(&c03Case{Kind: "spell", Src: []byte(ref), Style: "reference", Opts: optName(op)})
 			t.Failf("valid program rejected (reference spelling, %s): %v", optName(op), oneLineErr(err))
 			return
 		}
 		refStr[op] = s
+		refAST[op] = ast
 		t.Count("parses", 1)
 	}
 	// Inline only changes what is allowed at the top level
@@ -139,13 +145,17 @@ func c03Spell(t *fw.T) {
 		src, _ := gen.JSSpell(prog, st)
 		for _, op := range opts {
 			t.Desc(&c03Case{Kind: "spell", Src: []byte(src), Ref: []byte(ref), Style: fmt.Sprintf("%+v", st), Opts: optName(op)})
-			s, _, err := jsParseString(src, op)
+			s, ast, err := jsParseString(src, op)
 			if err != nil {
 				t.Failf("valid program rejected (%+v, %s): %v", st, optName(op), oneLineErr(err))
 				return
 			}
 			if s != refStr[op] {
 				t.Failf("tree differs from the fully parenthesised spelling (%+v, %s): %s", st, optName(op), firstDiff(s, refStr[op]))
+				return
+			}
+			if d := jsTreeDiff(ast, refAST[op]); d != "" {
+				t.Failf("tree differs from the fully parenthesised spelling in a field String() does not show (%+v, %s): %s (this spelling versus reference)", st, optName(op), d)
 				return
 			}
 			t.Count("parses", 1)
@@ -207,9 +217,45 @@ func firstDiff(a, b string) string {
 var c03Forbidden = []string{"-a**b", "-a ** b", "!a**b", "typeof a**b", "a??b||c", "a||b??c", "a&&b??c", "a??b&&c", "a ?? b || c", "a+b=c", "a*b+=c", "a||b=c"}
 var c03ForbiddenFrames = []string{"%s", "x=[%s]", "f(%s)", "if(%s)y", "x=(%s)", "y=%s", "x=a?(%s):b", "for(;%s;);", "z=`${%s}`", "({k:%s})"}
 
+// c03ForbiddenFragment composes one of the operator sequences the grammar forbids from random operands and operators:
+// a unary operator directly before the base of **, ?? mixed with || or && without parentheses, an assignment whose
+// target is a binary expression.
+// C03ForbiddenFragment is exported for the development tool jsdump.
+func C03ForbiddenFragment(r *rand.Rand) string { return c03ForbiddenFragment(r) }
+
+func c03ForbiddenFragment(r *rand.Rand) string {
+	operand := func() string {
+		return gen.Pick(r, []string{"a", "b", "2", "1.5", "0x10", "1n", ".5", "a.b", "a[0]", "f(x)", "this", "a.b.c", "x?.y", "`t`", "'s'", "null"})
+	}
+	sp := gen.Pick(r, []string{"", " "})
+	switch r.Intn(3) {
+	case 0:
+		op := gen.Pick(r, []string{"-", "+", "!", "~", "typeof ", "void ", "delete ", "- ", "+ "})
+		tail := ""
+		if r.Intn(3) == 0 {
+			tail = gen.Pick(r, []string{" + 1", " * c", " ** d", " || e"})
+		}
+		head := ""
+		if r.Intn(3) == 0 {
+			head = gen.Pick(r, []string{"1 + ", "c * ", "x = ", "y - "})
+		}
+		return head + op + operand() + sp + "**" + sp + operand() + tail
+	case 1:
+		lo := gen.Pick(r, []string{"||", "&&"})
+		if r.Intn(2) == 0 {
+			return operand() + sp + "??" + sp + operand() + sp + lo + sp + operand()
+		}
+		return operand() + sp + lo + sp + operand() + sp + "??" + sp + operand()
+	default:
+		bin := gen.Pick(r, []string{"+", "-", "*", "/", "%", "**", "<<", ">>", ">>>", "<", ">", "<=", ">=", "==", "!=", "===", "!==", "&", "|", "^", "&&", "||", "??", " in ", " instanceof "})
+		asg := gen.Pick(r, []string{"=", "+=", "-=", "*=", "/=", "%=", "**=", "<<=", ">>=", ">>>=", "&=", "|=", "^=", "&&=", "||=", "??="})
+		return gen.Pick(r, []string{"a", "b", "a.b", "x[0]"}) + sp + bin + sp + gen.Pick(r, []string{"b", "c", "a.b", "x[0]"}) + sp + asg + sp + operand()
+	}
+}
+
 func c03Reject(t *fw.T) {
 	r := t.Rng
-	prog := gen.JSProgram(r, gen.JSOpts{NoModuleItems: true, MaxStmts: 3, NoRegex: true})
+	prog := gen.JSProgram(r, gen.JSOpts{NoModuleItems: true, MaxStmts: 3, NoRegex: true, CtxNames: r.Intn(2) == 0})
 	st := gen.JSStyle{Parens: r.Intn(3), Semi: 0, WS: r.Intn(2), Seed: r.Int63()}
 	src, _ := gen.JSSpell(prog, st)
 	if _, err := js.Parse(parse.NewInputString(src), js.Options{}); err != nil {
@@ -262,7 +308,11 @@ func c03Reject(t *fw.T) {
 		}
 		mutant = strings.Join(toks, " ")
 	case 1: // forbidden operator combination
-		bad := fmt.Sprintf(gen.Pick(r, c03ForbiddenFrames), gen.Pick(r, c03Forbidden))
+		frag := gen.Pick(r, c03Forbidden)
+		if r.Intn(3) > 0 {
+			frag = c03ForbiddenFragment(r)
+		}
+		bad := fmt.Sprintf(gen.Pick(r, c03ForbiddenFrames), frag)
 		kind = "forbidden " + bad
 		if r.Intn(2) == 0 {
 			mutant = src + "\n;" + bad + ";"
@@ -317,6 +367,8 @@ var c03Probes = []struct {
 	{"static-async-newline", "class A{static async\n(a){}}", "class A{static async(a){}}"},
 	{"static-block-var", "let a;class b{static{var a}}", "let a;class b{static{var a;}}"},
 	{"nested-body-in-parens", "({}+function(){[a]})", "(({})+(function(){[a];}))"},
+	{"for-in-head-identifier-async", "for(async in c);for(async.p in c);", "for((async) in (c));for(((async).p) in (c));"},
+	{"for-init-async-function-with-in", "for(async function(){a in b};;);", "for((async function(){(a in b);});;);"},
 }
 
 func c03Probe(t *fw.T) {
